@@ -477,13 +477,26 @@ impl TryFrom<&mut Peekable<Lexer>> for ParserNode {
                                     With::new(Imm::new(0), next_node),
                                     lex.raw_token,
                                 ))
-                            } else {
+                            } else if matches!(
+                                next.token_type(),
+                                TokenType::Newline | TokenType::Comment(_)
+                            ) {
                                 Ok(ParserNode::new_jump_link_r(
                                     With::new(inst, next_node.clone()),
                                     With::new(Register::X1, next_node.clone()),
                                     reg1,
                                     With::new(Imm::new(0), next_node),
                                     lex.raw_token,
+                                ))
+                            } else {
+                                // Anything else after `jalr rs` is not an operand
+                                Err(Expected(
+                                    vec![
+                                        ExpectedType::Register,
+                                        ExpectedType::Imm,
+                                        ExpectedType::LParen,
+                                    ],
+                                    Box::new(next),
                                 ))
                             };
                         }
